@@ -372,3 +372,64 @@ def c04_r18(ctx):
             ctx.ok(f"{fi.qualname} -> {at[:40]}: every path returns a value", fi.loc())
     if n == 0:
         ctx.ok("no function with a value-typed return annotation in the files this property is anchored in")
+
+
+def _falsy_literal(e: ast.AST) -> bool:
+    e = e.value if isinstance(e, ast.Starred) else e
+    if isinstance(e, ast.Constant):
+        return e.value is None or e.value is False or e.value == "" or e.value == 0 or e.value == b""
+    if isinstance(e, (ast.List, ast.Tuple, ast.Set)):
+        return not e.elts
+    if isinstance(e, ast.Dict):
+        return not e.keys
+    if isinstance(e, ast.Call) and isinstance(e.func, ast.Name) and e.func.id in ("dict", "list", "set", "tuple", "frozenset", "str") and not e.args and not e.keywords:
+        return True
+    return False
+
+
+@rule("C04.R19", "defaulting idioms keep the value they default: `x or <empty>` / `x if x else <empty>` - never `x and <empty>` or the arms swapped, which is empty whatever x is", min_instances=1,
+      also=["C01", "C02", "C03", "C05", "C06", "C07", "C08", "C09", "C10", "C11", "C12", "C13", "C14", "C15", "C16", "C17", "C18", "C19"])
+def c04_r19(ctx):
+    import fnmatch
+    repo = ctx.repo
+    pats = _anchor_files(ctx.prop)
+    n = 0
+    for fi in repo.all_functions():
+        if ctx.prop != "C04" and pats and not any(fnmatch.fnmatch(fi.module.relpath, p_) for p_ in pats):
+            continue
+        nested = {id(x) for f_ in ast.walk(fi.node) if f_ is not fi.node and isinstance(f_, (ast.FunctionDef, ast.AsyncFunctionDef)) for x in ast.walk(f_)}
+        for e in ast.walk(fi.node):
+            if id(e) in nested:
+                continue
+            if isinstance(e, ast.If) and len(e.body) == 1 and len(e.orelse) == 1 and all(isinstance(s_, (ast.Assign, ast.AnnAssign)) and s_.value is not None for s_ in (e.body[0], e.orelse[0])):
+                # `T = a if t else b` in its statement form (the loader's normal form for conditional assignments)
+                tg = lambda s_: norm(s_.target if isinstance(s_, ast.AnnAssign) else s_.targets[0])
+                if tg(e.body[0]) == tg(e.orelse[0]):
+                    e = ast.copy_location(ast.IfExp(test=e.test, body=e.body[0].value, orelse=e.orelse[0].value), e)
+            if isinstance(e, ast.BoolOp) and _falsy_literal(e.values[-1]) and not any(_falsy_literal(v) for v in e.values[:-1]):
+                n += 1
+                what = norm(e)
+                if isinstance(e.op, ast.And):
+                    ctx.fail(key(fi, f"default {norm(e.values[0])[:40]}"), f"`{what[:100]}` is {norm(e.values[-1])} for every value of `{norm(e.values[0])[:60]}`: the value it should default is thrown away", fi.loc(e))
+                else:
+                    ctx.ok(f"{fi.qualname}: `{what[:80]}` keeps the value, defaults the missing one", fi.loc(e))
+            elif isinstance(e, ast.IfExp) and (_falsy_literal(e.body) or _falsy_literal(e.orelse)) and not (_falsy_literal(e.body) and _falsy_literal(e.orelse)):
+                t = e.test
+                neg = False
+                while isinstance(t, ast.UnaryOp) and isinstance(t.op, ast.Not):
+                    t, neg = t.operand, not neg
+                if isinstance(t, ast.Compare) and len(t.ops) == 1 and isinstance(t.ops[0], (ast.Is, ast.IsNot)) and isinstance(t.comparators[0], ast.Constant) and t.comparators[0].value is None:
+                    neg = neg != isinstance(t.ops[0], ast.Is)
+                    t = t.left
+                kept, lit = (e.orelse, e.body) if _falsy_literal(e.body) else (e.body, e.orelse)
+                if norm(t) != norm(kept):
+                    continue        # not the defaulting idiom (`a if flag else None`)
+                n += 1
+                # value is present (test true, not negated) -> must yield the kept arm
+                yields_kept_when_present = (kept is e.body) != neg
+                if yields_kept_when_present:
+                    ctx.ok(f"{fi.qualname}: `{norm(e)[:80]}` keeps the value, defaults the missing one", fi.loc(e))
+                else:
+                    ctx.fail(key(fi, f"default {norm(kept)[:40]}"), f"`{norm(e)[:100]}` yields {norm(lit)} exactly when `{norm(kept)[:60]}` is present, and the missing value otherwise: arms swapped", fi.loc(e))
+    if n == 0:
+        ctx.ok("no defaulting idiom in the files this property is anchored in")
